@@ -105,7 +105,9 @@ Definition required_error (p : payload) (o : list pubmsg) : bool :=
           7 the query event expired but the listener goroutine did not return
           8 a callback ran for a request that was never accepted into the channel, or ran twice
           9 the subject is not fresh: an earlier query event of the same service object (any Serve run) had it
-         10 a request sent, after a restart, to the subject of a query event of the previous run was answered *)
+         10 a request sent, after a restart, to the subject of a query event of the previous run was answered
+         11 the callback was invoked with, or later saw, a query that is not the one its request carried
+            (recorded as invocation id 999999) *)
 Definition viol_case (c : qcase) : list N :=
   let tr := qc_trace c in
   let calls := qc_calls c in
@@ -113,7 +115,7 @@ Definition viol_case (c : qcase) : list N :=
   let ok_run := qc_complete c && negb (has_refusal tr) in
   let subok := match sub_result tr with Some true => true | _ => false end in
   let subfail := match sub_result tr with Some false => true | _ => false end in
-  (if forallb (fun i => Nat.eqb (nresp (lookup i (qc_resps c))) 1) ids
+  (if forallb (fun i => N.eqb i 999999 || Nat.eqb (nresp (lookup i (qc_resps c))) 1) ids   (* 999999 = invoked with a query no request carries: code 8 *)
       && forallb (fun io => memN (fst io) ids || Nat.eqb (nresp (snd io)) 0) (qc_resps c) then [] else [1%N]) ++
   (if Nat.leb (n_nil calls) 1 && (negb (c_serial (qc_cfg c)) || nil_is_last calls) then [] else [2%N]) ++
   (if ok_run && subok && negb (forallb (fun m => memN (m_id m) ids) (early_of tr)) then [3%N] else []) ++
@@ -123,11 +125,12 @@ Definition viol_case (c : qcase) : list N :=
   (if forallb (fun i => match payload_of tr i with Some p => required_error p (lookup i (qc_resps c)) | None => true end) ids
    then [] else [6%N]) ++
   (if qc_complete c && subok && has_expire tr && negb (qc_exited c) then [7%N] else []) ++
-  (if forallb (fun i => existsb (fun l => match l with LQArrive m true => N.eqb (m_id m) i | _ => false end) tr) ids
-      && (fix nodup (l : list N) := match l with [] => true | x :: r => negb (memN x r) && nodup r end) ids
+  (if forallb (fun i => N.eqb i 999999 || existsb (fun l => match l with LQArrive m true => N.eqb (m_id m) i | _ => false end) tr) ids
+      && (fix nodup (l : list N) := match l with [] => true | x :: r => negb (memN x r) && nodup r end) (filter (fun i => negb (N.eqb i 999999)) ids)
    then [] else [8%N]) ++
   (if subok && memN (qc_subj c) (qc_prev c) then [9%N] else []) ++
-  (if forallb (fun o => Nat.eqb (length o) 0) (qc_stale c) then [] else [10%N]).
+  (if forallb (fun o => Nat.eqb (length o) 0) (qc_stale c) then [] else [10%N]) ++
+  (if memN 999999 ids then [11%N] else []).
 
 Fixpoint run_idx {A} (f : A -> list N) (i : N) (cs : list A) : list (N * N) :=
   match cs with
